@@ -95,6 +95,12 @@ def run_history(it, title, threshold, steps):
     returned = []               # (kind, payload, clock)
     sigints = {"pending": 0, "sent": 0, "returned": 0}
     fired_during = []
+    fire_count = {}
+    arrivals = []               # key names of every chunk that arrived, in order
+
+    def unread():
+        k = len(osm.data.get(0, []))
+        return [n for names in (arrivals[len(arrivals) - k:] if k else []) for n in names]
     trail = []
     hist = lambda: "%s%s: %s" % (title, "" if threshold is None else " (paste_threshold=%s)" % threshold, "; ".join(trail))   # noqa: E731
 
@@ -121,6 +127,7 @@ def run_history(it, title, threshold, steps):
         nonlocal pending_os
         t0 = osm.clock
         buffered = list(inp.fields.get("unprocessed_bytes", []))
+        pending_os = unread()
         deliverable = bool(buffered) or bool(pending_os) or any(k in ("event", "tsevent") for k, *_ in outstanding()) or \
             any(w <= t0 for w in outstanding_sched().values())
         burst = len(osm.data.get(0, [b""])[0]) if osm.data.get(0) and not buffered else 0
@@ -140,8 +147,7 @@ def run_history(it, title, threshold, steps):
             return ("H1-every-byte-returned-once-in-order", hist(), "the request raised %s" % (r[1],))
         v = r[1]
         t1 = osm.clock
-        if not osm.data.get(0):
-            pending_os = []
+        pending_os = unread()
         if v is None:
             trail[-1] += " -> None"
             if deliverable or fired_during:
@@ -203,11 +209,13 @@ def run_history(it, title, threshold, steps):
             data, names = KEYS[st[1]]
             osm.data.setdefault(0, []).append(data)
             expected_keys.extend(names)
-            pending_os = pending_os + names
+            arrivals.append(names)
+            pending_os = unread()
             trail.append("%d byte(s) arrive (%s)" % (len(data), st[1]))
         elif st[0] == "unget":
             data, names = KEYS[st[1]]
             # bytes handed back go behind what the Input has buffered, but before what it has not read yet
+            pending_os = unread()
             idx = len(expected_keys) - len(pending_os)
             expected_keys[idx:idx] = names
             r = it.callm(inp, "unget_bytes", data)
@@ -222,17 +230,22 @@ def run_history(it, title, threshold, steps):
                     raise AnalysisError("%s_trigger gives %s" % (st[0], r,))
                 table[st[1]] = r[1]
             rows = (1 if st[0] == "event" else 2) * 100 + st[1]
+            # the n-th firing of a trigger is numbered when it actually fires (a callback waiting for the next blocked request
+            # may fire after later direct calls)
             if st[0] == "tsevent-during":
-                def fire(cb=table[st[1]], rows=rows, n=st[2]):
-                    call_cb(cb, rows=rows, columns=n)
-                    triggered.append(("event", rows, n))
+                def fire(cb=table[st[1]], rows=rows):
+                    fire_count[rows] = fire_count.get(rows, 0) + 1
+                    call_cb(cb, rows=rows, columns=fire_count[rows])
+                    triggered.append(("event", rows, fire_count[rows]))
                     fired_during.append(1)
+                    trail.append("(the waiting callback of threadsafe trigger %d fires now)" % (rows % 100))
                 osm.on_select = fire
-                trail.append("(threadsafe trigger %d will fire (%d) from another thread while the next request is blocked)" % (st[1], st[2]))
+                trail.append("(threadsafe trigger %d will fire from another thread as soon as a request is blocked)" % st[1])
                 continue
-            call_cb(table[st[1]], rows=rows, columns=st[2])
-            triggered.append(("event", rows, st[2]))
-            trail.append("%s trigger %d fires (%d)" % ("threadsafe" if st[0] == "tsevent" else "event", st[1], st[2]))
+            fire_count[rows] = fire_count.get(rows, 0) + 1
+            call_cb(table[st[1]], rows=rows, columns=fire_count[rows])
+            triggered.append(("event", rows, fire_count[rows]))
+            trail.append("%s trigger %d fires (%d)" % ("threadsafe" if st[0] == "tsevent" else "event", st[1], fire_count[rows]))
         elif st[0] == "sched":
             if sched_cb is None:
                 r = it.callm(inp, "scheduled_event_trigger", sch_cls)
@@ -298,6 +311,45 @@ def run_history(it, title, threshold, steps):
     return None
 
 
+def generated_histories(n, seed=20260928):
+    """Deterministic pseudo-random interleavings of the step alphabet (thorough tier): arrivals, unget, the three kinds of triggers
+    (also firing while a request is blocked), requests with timeouts 0 / 0.5, ending with a drain."""
+    import random
+    rnd = random.Random(seed)
+    out = []
+    keys = ["a", "b", "up", "e'", "ab", "up+a", "burst"]
+    for i in range(n):
+        steps = []
+        counters = {"event": [0, 0], "tsevent": [0, 0], "sched": 0}
+        during = False
+        for _ in range(rnd.randint(4, 9)):
+            k = rnd.choice(["arrive", "arrive", "unget", "event", "tsevent", "tsevent-during", "sched", "request", "request", "request"])
+            if during and k != "request":
+                continue
+            if k == "arrive":
+                steps.append(("arrive", rnd.choice(keys)))
+            elif k == "unget":
+                steps.append(("unget", rnd.choice(["a", "up", "ab"])))
+            elif k in ("event", "tsevent", "tsevent-during"):
+                t = rnd.randint(0, 1)
+                base = "event" if k == "event" else "tsevent"
+                counters[base][t] += 1
+                steps.append((k, t, counters[base][t]))
+                during = k == "tsevent-during"
+            elif k == "sched":
+                counters["sched"] += 1
+                steps.append(("sched", rnd.choice([0.0, 0.3, 0.3, 2.0]), counters["sched"]))
+            else:
+                steps.append(("request", rnd.choice([0, 0.5, 5] if during else [0, 0.5])))
+                during = False
+        if during:
+            steps.append(("request", 5))
+        steps.append(("drain",))
+        thr = rnd.choice([None, None, "none", 1, 100])
+        out.append(("generated #%d" % i, thr, steps))
+    return out
+
+
 def run(src, rep, counts):
     from ..par import pmap
     it = new_interp(src)
@@ -319,10 +371,11 @@ def run(src, rep, counts):
         if getattr(it, "forks", 0) != forks:
             return ("error", "history %r: a condition on an unknown value was met while interpreting against the OS model" % title, "")
         return res
-    results = pmap(one, HISTORIES, min_chunk=1)
+    histories = list(HISTORIES) + (generated_histories(2000) if rep.tier == "thorough" else generated_histories(40))
+    results = pmap(one, histories, min_chunk=1)
     bad = {}
     n = 0
-    for h, res in zip(HISTORIES, results):
+    for h, res in zip(histories, results):
         n += 1
         rep.case(True, {"history": h[0]} if n % 5 == 1 else None)
         if res is None:
